@@ -3,8 +3,8 @@ import itertools
 from vlib import Case, hx
 
 HARNESS = "rx_driver"
-LEAN_MODULES = ["ViaProofs.C16"]
-REQUIRED_THEOREMS = ["Via.C16", "Via.C16_no_throw"]
+LEAN_MODULES = ["ViaProofs.C16", "ViaProofs.Trans.RT"]
+REQUIRED_THEOREMS = ["Via.C16", "Via.C16_no_throw", "Via.RT_handleRequest", "Via.RT_guard"]
 LEVEL = "proof"
 LEVEL_TEXT = ("PROOF that the router's dispatch equals a 10-line specification matcher for every route table, target and method (refinement), and never throws; correspondence exhaustive over small tables plus random larger ones, duplicate registrations, multi-'?' targets.")
 RULE = ("route tables over segment alphabet {a,b,:x,:y} (patterns of 1..3 segments, distinct parameter names) with GET/POST "
@@ -13,6 +13,7 @@ RULE = ("route tables over segment alphabet {a,b,:x,:y} (patterns of 1..3 segmen
         "expected outcome from an independent segment-wise matcher; non-trivial = the pattern has a parameter or the "
         "table has 2 routes; distinct = distinct (table, target, method)")
 TRUSTED_BASE = ["Lean 4.33 kernel", "axioms: propext, Classical.choice, Quot.sound at most",
+                "tools/cxx2lean_router.py (translation of the decision chain of request_router::handle_request; the model is proved equal to it in ViaProofs/Trans/RT; find_route / request_uri / get_route_parameters are hand-modelled and tied by correspondence only)",
                 "rx_driver harness + via_model driver", "std::string / std::map modelled as lists / sorted association lists"]
 ASSUMPTIONS = ["route patterns start with '/', ':' occurs only as the first character of a segment, parameter names in one "
                "pattern are distinct and non-empty patterns (the documented usage)",
